@@ -120,11 +120,40 @@ class EngineBase(PathMgr):
         kk = smt.simp(smt.key_of(k))
         v = smt.simp(z3.Select(z3.Select(self.st.dct, r), kk))
         self.dict_probes.append((smt.simp(r), kk))
+        self.link_dlen(smt.simp(r), kk)
+        sid = smt.static_id(Val.ref(r))
+        if sid is not None and sid >= 900_000:
+            so = self.static_objs.get(sid)
+            gd = getattr(self, 'global_dict_types', {})
+            if isinstance(so, tuple) and (so[1], so[2]) in gd:
+                self.assume(z3.Or(v == smt.ABSENT, self.type_formula(v, gd[(so[1], so[2])])))
         # a member found present means the dict is not empty
         self._add_pc(z3.Implies(v != smt.ABSENT, z3.Select(self.st.dlen, r) >= 1))
         self._add_pc(z3.Select(self.st.dlen, r) >= 0)
         self.bound_ref(v)
+        self.json_closed(d, v)
         return v
+
+    def link_dlen(self, r, kk) -> None:
+        """initial dict r: its length is at least the number of distinct constant keys found present
+        (without this, models contain 'empty' dicts that have members, which no Python value realises)"""
+        if smt.tag_of(kk) is None or not (z3.is_app(kk) and kk.num_args() == 1 and
+                                          (z3.is_string_value(kk.arg(0)) or z3.is_int_value(kk.arg(0)))):
+            if smt.tag_of(kk) != 'none':
+                return
+        groups = self.__dict__.setdefault('_probe_groups', {})
+        if groups.get('__path__') is not self.pc:
+            groups.clear()
+            groups['__path__'] = self.pc
+        g = groups.setdefault(r.get_id(), [])
+        if any(k.eq(kk) for k in g):
+            return
+        g.append(kk)
+        h0 = z3.Array('H_dict', smt.I, smt.DictV)
+        l0 = z3.Array('H_dlen', smt.I, smt.I)
+        cnt = z3.Sum([z3.If(z3.Select(z3.Select(h0, r), k) != smt.ABSENT, 1, 0) for k in g]) if len(g) > 1 else \
+            z3.If(z3.Select(z3.Select(h0, r), g[0]) != smt.ABSENT, 1, 0)
+        self._add_pc(z3.Select(l0, r) >= cnt)
 
     def dict_set(self, d, k, v) -> None:
         r = Val.r(d)
@@ -215,9 +244,9 @@ class EngineBase(PathMgr):
     def truthy_ref(self, v, c: Optional[ClassInfo]):
         if self.static_of(v) is not None:
             return z3.BoolVal(True)
-        if c is None:
-            c = self.require_class(v, 'truthiness')
         r = Val.r(v)
+        if c is None:
+            return self.truthy_unknown_ref(v)
         if c.builtin:
             if c.name in ('list', 'tuple'):
                 return smt.simp(z3.Length(z3.Select(self.st.seq, r)) > 0)
@@ -258,6 +287,57 @@ class EngineBase(PathMgr):
         if fi.name == '__len__':
             return smt.simp(smt.int_of(res) != 0)
         return self.truthy(res)
+
+    def truthy_unknown_ref(self, v):
+        """truthiness of a reference whose class is not known statically: containers by class id,
+        library classes with a constant __bool__ (UNSET) merged in, classes with __len__ forked"""
+        r = Val.r(v)
+        cid = smt.cls_of(r)
+        for n in ('list', 'tuple', 'dict'):
+            self.use_class(builtin_class(n))
+        L, T, D = (builtin_class(n).cid for n in ('list', 'tuple', 'dict'))
+        self._add_pc(z3.Select(self.st.dlen, r) >= 0)
+        generic = z3.If(z3.Or(cid == L, cid == T), z3.Length(z3.Select(self.st.seq, r)) > 0,
+                        z3.If(cid == D, z3.Select(self.st.dlen, r) > 0, z3.BoolVal(True)))
+        for k in self.classes:
+            if k.builtin:
+                continue
+            m = k.methods.get('__bool__') or k.methods.get('__len__')
+            if m is None:
+                continue
+            self.use_class(k)
+            subs = self.subclasses.get(k.qualname, [k])
+            guard = z3.Or(*[cid == kk.cid for kk in subs])
+            const = None
+            if m.name == '__bool__':
+                body = [b for b in m.node.body if not isinstance(b, ast.Expr)]
+                if len(body) == 1 and isinstance(body[0], ast.Return) and isinstance(body[0].value, ast.Constant):
+                    const = bool(body[0].value.value)
+            if const is not None:
+                generic = z3.If(guard, z3.BoolVal(const), generic)
+                continue
+            if self.implied(z3.Not(guard)):
+                continue
+            if self.branch(guard):
+                self.set_class(v, k, exact=False)
+                res = self.call_function(m, [v], {})
+                return smt.simp(smt.int_of(res) != 0) if m.name == '__len__' else self.truthy(res)
+        return smt.simp(generic)
+
+    def is_initial_read(self, v) -> bool:
+        """v is syntactically a read of the heap as it was on entry (no store on the way)"""
+        v = smt.simp(v)
+        if not (z3.is_app(v) and v.decl().kind() == z3.Z3_OP_SELECT):
+            return False
+        a = v.arg(0)
+        if z3.is_app(a) and a.decl().kind() == z3.Z3_OP_SELECT:
+            a = a.arg(0)
+        return z3.is_const(a) and a.decl().kind() == z3.Z3_OP_UNINTERPRETED and a.decl().name() in ('H_dict', 'H_seq')
+
+    def json_closed(self, container, v) -> None:
+        """deep JSON-ness: a member/element read from a container that is JSON (on entry) is JSON"""
+        if self.is_initial_read(v):
+            self._add_pc(z3.Implies(smt.isjson(container), z3.Or(v == smt.ABSENT, self.type_formula(v, 'json'))))
 
     def to_val_bool(self, b):
         return smt.simp(Val.bool(b))
